@@ -17,6 +17,8 @@ TraceNext ==
   /\ \/ IsEvent("Source") /\ NewSource
      \/ IsEvent("CompileOk") /\ Compile(TRUE)
      \/ IsEvent("CompileErr") /\ Compile(FALSE)
+     \/ IsEvent("WarmOk") /\ Warm(TRUE)
+     \/ IsEvent("WarmErr") /\ Warm(FALSE)
      \/ IsEvent("ExecOk") /\ Execute(TRUE)
      \/ IsEvent("ExecErr") /\ Execute(FALSE)
 TraceSpec == TraceInit /\ [][TraceNext]_tvars
